@@ -360,6 +360,8 @@ theorem handleDoubleSign_signInv (s s' : State) (a : Addr) (ih et pw : Int)
   rename_i si hsi
   split at h
   · cases h
+  split at h
+  · cases h
   simp only [] at h
   have hsl := slash_valsStep s a (ih - 1) pw s.p.sfDouble
   generalize slash s a (ih - 1) pw s.p.sfDouble = s1 at h hsl
@@ -407,6 +409,8 @@ theorem handleDoubleSign_tombstones (s s' : State) (a : Addr) (ih et pw : Int)
   split at h
   · cases h
   rw [if_neg (by omega)] at h
+  split at h
+  · cases h
   split at h
   · cases h
   split at h
@@ -576,6 +580,8 @@ theorem handle_signInv (s s' : State) (m : Msg) (hi : SignInv s) (h : handle s m
     split at h
     · cases h
     rename_i hst
+    split at h
+    · cases h
     split at h
     · cases h
     injection h with h
